@@ -57,6 +57,7 @@ type precond struct {
 	lenLo, lenHi map[int]int64   // per param index
 	valLo, valHi map[int]int64   // integer parameters
 	le           map[[2]int]bool // len(param i) <= len(param j)
+	within       map[[2]int]bool // 0 <= integer param i <= len(param j): a position in (or at the end of) that sequence
 }
 
 // lenRoot strips length-preserving wrappers.
@@ -197,6 +198,12 @@ func (p *prover) eval0(v ssa.Value, b *ssa.BasicBlock, depth int) lin {
 				if ok1 && ok2 {
 					return lin{lo: lo, hi: hi, ok: true, nonneg: lo >= 0}
 				}
+				// a position in one of the sequence parameters (shown at every call site): 0 ≤ x ≤ len(that parameter)
+				for j, q := range p.fn.Params {
+					if p.pre.within[[2]int{i, j}] {
+						return lin{base: lenRoot(q), lo: -inf, hi: 0, ok: true, nonneg: true}
+					}
+				}
 			}
 		}
 	case *ssa.Convert:
@@ -206,6 +213,38 @@ func (p *prover) eval0(v ssa.Value, b *ssa.BasicBlock, depth int) lin {
 	case *ssa.ChangeType:
 		return p.eval(x.X, b, depth+1)
 	case *ssa.Call:
+		// a helper of the module that moves a position back (its one result is a rewind counter started at one of its
+		// parameters): the result lies between 0 and that argument
+		if callee := p.c.StaticCallee(&x.Call); callee != nil && inRepo(callee) && depth < 6 {
+			g := origin(callee)
+			var res ssa.Value
+			n := 0
+			for _, gb := range g.Blocks {
+				if r, ok := gb.Instrs[len(gb.Instrs)-1].(*ssa.Return); ok {
+					n++
+					if len(r.Results) == 1 {
+						res = r.Results[0]
+					}
+				}
+			}
+			if ph, ok := res.(*ssa.Phi); ok && n == 1 {
+				q := &prover{c: p.c, fn: g}
+				if ei, ok := q.rewindCounter(ph); ok {
+					if prm, ok := ph.Edges[ei].(*ssa.Parameter); ok {
+						if k := paramIndex(g, prm); k >= 0 && k < len(x.Call.Args) {
+							a := p.eval(x.Call.Args[k], b, depth+1)
+							if a.ok && (a.nonneg || a.lo >= 0) {
+								r := lin{base: a.base, lo: -inf, hi: a.hi, ok: true, nonneg: true}
+								if a.base == nil {
+									r.lo = 0
+								}
+								return r
+							}
+						}
+					}
+				}
+			}
+		}
 		if bi, ok := x.Call.Value.(*ssa.Builtin); ok && bi.Name() == "len" {
 			root := lenRoot(x.Call.Args[0])
 			// what a Trim function of strings / bytes hands back is no longer than what it was given; a prefix x[:h]
@@ -1061,6 +1100,11 @@ type site struct {
 	kind string
 }
 
+// sliceSiteAt: the obligation "0 ≤ idx ≤ len(X)" at instruction in.
+func sliceSiteAt(in ssa.Instruction, X, idx ssa.Value) site {
+	return site{in: in, X: X, idx: idx, kind: "slice"}
+}
+
 func indexSites(fn *ssa.Function) []site {
 	var out []site
 	for _, b := range fn.Blocks {
@@ -1169,6 +1213,12 @@ func (p *prover) prove(s site) (bool, string) {
 					return true, ""
 				}
 			}
+			// helper(x, h) that moves the position h back: its result is ≤ h
+			if h := p.rewindHelperArg(v); h != nil {
+				if ok, _ := checkAt(h, strict, b, depth+1); ok {
+					return true, ""
+				}
+			}
 			if ph, ok := v.(*ssa.Phi); ok {
 				if i, ok := p.rewindCounter(ph); ok {
 					if init := p.eval(ph.Edges[i], ph.Block().Preds[i], 0); init.ok && (init.nonneg || init.lo >= 0) {
@@ -1190,6 +1240,13 @@ func (p *prover) prove(s site) (bool, string) {
 						}
 					}
 				}
+			}
+		}
+		// an integer parameter the callers have shown to be a position in the sequence parameter indexed here
+		if prm, ok := v.(*ssa.Parameter); ok && p.pre != nil && !strict {
+			pi, ri := paramIndex(p.fn, prm), paramIndex(p.fn, root)
+			if pi >= 0 && ri >= 0 && p.pre.within[[2]int{pi, ri}] {
+				return true, ""
 			}
 		}
 		e := p.eval(v, b, 0)
@@ -1407,7 +1464,7 @@ func (c *Ctx) observations(fns map[*ssa.Function]bool) map[*ssa.Function][]*prec
 						return
 					}
 					p := &prover{c: c, fn: st.caller, scenario: sc, extra: extra, pre: cob}
-					o := &precond{lenLo: map[int]int64{}, lenHi: map[int]int64{}, valLo: map[int]int64{}, valHi: map[int]int64{}, le: map[[2]int]bool{}}
+					o := &precond{lenLo: map[int]int64{}, lenHi: map[int]int64{}, valLo: map[int]int64{}, valHi: map[int]int64{}, le: map[[2]int]bool{}, within: map[[2]int]bool{}}
 					for ai, a := range callArgs {
 						switch t := a.Type().Underlying().(type) {
 						case *types.Basic:
@@ -1467,6 +1524,22 @@ func (c *Ctx) observations(fns map[*ssa.Function]bool) map[*ssa.Function][]*prec
 							}
 						}
 					}
+					// an integer argument that is a position in a sequence argument of the same call (helper(s, i) with
+					// i ≤ len(s) shown at the call site): the helper may rely on it
+					for ai, a := range st.call.Call.Args { // the call's own operands, not a merge edge's: the facts at the call speak of them
+						bt, isInt := a.Type().Underlying().(*types.Basic)
+						if !isInt || bt.Info()&types.IsInteger == 0 {
+							continue
+						}
+						for aj, a2 := range st.call.Call.Args {
+							if ai == aj || !isByteSeq(a2.Type()) {
+								continue
+							}
+							if ok, _ := p.prove(sliceSiteAt(st.call, a2, a)); ok {
+								o.within[[2]int{ai, aj}] = true
+							}
+						}
+					}
 					list = append(list, o)
 				}
 				rec(0, map[*ssa.Phi]int{}, nil)
@@ -1492,7 +1565,7 @@ func hullOf(list []*precond) *precond {
 			return nil
 		}
 	}
-	h := &precond{lenLo: map[int]int64{}, lenHi: map[int]int64{}, valLo: map[int]int64{}, valHi: map[int]int64{}, le: map[[2]int]bool{}}
+	h := &precond{lenLo: map[int]int64{}, lenHi: map[int]int64{}, valLo: map[int]int64{}, valHi: map[int]int64{}, le: map[[2]int]bool{}, within: map[[2]int]bool{}}
 	merge := func(get func(*precond) (map[int]int64, map[int]int64), lo, hi map[int]int64) {
 		l0, _ := get(list[0])
 		for i := range l0 {
@@ -1529,6 +1602,17 @@ func hullOf(list []*precond) *precond {
 		}
 		if all {
 			h.le[k] = true
+		}
+	}
+	for k := range list[0].within {
+		all := true
+		for _, o := range list {
+			if !o.within[k] {
+				all = false
+			}
+		}
+		if all {
+			h.within[k] = true
 		}
 	}
 	return h
@@ -2071,4 +2155,46 @@ func trimmedPrefixLen(v ssa.Value) ssa.Value {
 		return nil
 	}
 	return sl.High
+}
+
+// rewindHelperArg: v is a call of a function of the module whose one result is a rewind counter (phi(init, self−1),
+// decremented only behind self > 0) started at one of its parameters: returns the matching argument — the result
+// lies between 0 and it.
+func (p *prover) rewindHelperArg(v ssa.Value) ssa.Value {
+	call, ok := v.(*ssa.Call)
+	if !ok {
+		return nil
+	}
+	callee := p.c.StaticCallee(&call.Call)
+	if callee == nil || !inRepo(callee) {
+		return nil
+	}
+	g := origin(callee)
+	var res ssa.Value
+	n := 0
+	for _, gb := range g.Blocks {
+		if r, ok := gb.Instrs[len(gb.Instrs)-1].(*ssa.Return); ok {
+			n++
+			if len(r.Results) == 1 {
+				res = r.Results[0]
+			}
+		}
+	}
+	ph, ok := res.(*ssa.Phi)
+	if !ok || n != 1 {
+		return nil
+	}
+	q := &prover{c: p.c, fn: g}
+	ei, ok := q.rewindCounter(ph)
+	if !ok {
+		return nil
+	}
+	prm, ok := ph.Edges[ei].(*ssa.Parameter)
+	if !ok {
+		return nil
+	}
+	if k := paramIndex(g, prm); k >= 0 && k < len(call.Call.Args) {
+		return call.Call.Args[k]
+	}
+	return nil
 }
